@@ -68,6 +68,21 @@ def make_matrix(desc):
     """
     n, cls, cplx = int(desc["n"]), desc["cls"], bool(desc.get("cplx", False))
     rng = sub_rng(0xA11, desc["seed"])
+    if cls == "blocks2":
+        # structured symmetric matrix: block diagonal of [[a, b], [b, a]] blocks (spring pairs).  Its eigenvectors are
+        # (1, 1)/sqrt2 and (1, -1)/sqrt2 per block: antisymmetric modes with a bit-exact zero mean entry.
+        A = np.zeros((n, n))
+        for k in range(0, n - 1, 2):
+            a, b = float(rng.uniform(1.5, 3.0)), float(rng.uniform(0.2, 1.0)) * float(rng.choice([-1.0, 1.0]))
+            A[k, k] = A[k + 1, k + 1] = a + 0.1 * (k // 2)
+            A[k, k + 1] = A[k + 1, k] = b
+        if n % 2:
+            A[n - 1, n - 1] = float(rng.uniform(4.0, 5.0))
+        A = A * float(desc.get("scale", 1.0))
+        sp = desc.get("sparse")
+        if sp in ("csc_full", "csr_full"):
+            return full_structure(A, sp[:3])
+        return sps.csc_matrix(A) if sp == "csc" else (sps.csr_matrix(A) if sp == "csr" else A)
     if cls == "hindef_posdiag":
         # Hermitian, same-sign diagonal, yet indefinite: ones-matrix scaled by c>1 off the diagonal + small perturbation.
         # Eigenvalues ~ 1-c (n-1 times) and 1+(n-1)c: non-singular, condition number O(n).  Cholesky fails *naturally*.
